@@ -229,3 +229,8 @@ Definition chk_count_by (rows : list nrow) (k : nat) (obs : list (val * list (op
                       | None => false end) obs;
     forallb (fun o => count_cells_eqb (map (fun i => spec_count_cell rows k i (fst o)) (seq 0 (length rows))) (snd o)) obs;
     true; true ].
+
+(* ---------- C12 / C11: the layer dropna and sort_values work on (Targets.v) ---------- *)
+From NP Require Import Targets.
+Definition res_layer_eqb (a b : res layer) : bool :=
+  match a, b with Ok x, Ok y => layer_eqb x y | Err, Err => true | _, _ => false end.
